@@ -155,25 +155,54 @@ def oracle(ctx, case, jcase):
                          detail={'nested': repr(got)[:1500], 'standalone': repr(want)[:1500]})
 
 
+def wrap(kind, schema, doc):
+    if kind == 'schema':
+        return {'n': {'type': 'dict', 'schema': schema}}, {'n': doc}
+    if kind == 'list':
+        return {'n': {'type': 'list', 'schema': {'type': 'dict', 'schema': schema}}}, {'n': [doc, doc]}
+    if kind == 'items':
+        return {'n': {'type': 'list', 'items': [{'type': 'dict', 'schema': schema}]}}, {'n': [doc]}
+    if kind == 'values':
+        return {'n': {'type': 'dict', 'valuesrules': {'type': 'dict', 'schema': schema}}}, {'n': {'k': doc}}
+    if kind == 'anyof':
+        return {'n': {'anyof': [{'type': 'dict', 'schema': schema}]}}, {'n': doc}
+    raise ValueError(kind)
+
+
 def oracle_root(ctx, case, jcase, rng):
-    """^-dependencies below a field resolve against the outermost document, at depth 1..4"""
+    """^-dependencies below a field resolve against the outermost document, through every kind of
+    child validator (schema, list schema, items, valuesrules, *of, rules for unknown fields), depth 1..3"""
+    import itertools
     from cerberus import Validator
-    for depth in (1, 2, 3, 4):
-        inner = {'x': {'dependencies': '^top'}}
-        doc_inner = {'x': 1}
-        schema, doc = inner, doc_inner
-        for d in range(depth):
-            schema = {'n': {'type': 'dict', 'schema': schema}}
-            doc = {'n': doc}
-        schema['top'] = {}
-        for present in (True, False):
-            d2 = copy.deepcopy(doc)
-            if present:
-                d2['top'] = 1
-            ok = Validator(schema).validate(d2)
-            if ok != present:
-                ctx.fail('C10 oracle: root-relative dependency at depth %d resolved wrongly (top present=%s, valid=%s)'
-                         % (depth, present, ok), {'schema': repr(schema), 'doc': repr(d2)})
+    kinds = ['schema', 'list', 'items', 'values', 'anyof']
+    for depth in (1, 2, 3):
+        for seq in itertools.product(kinds, repeat=depth):
+            for outer in ('known', 'unknown'):
+                schema, doc = {'x': {'dependencies': '^top'}}, {'x': 1}
+                for k in seq:
+                    schema, doc = wrap(k, schema, doc)
+                kw = {}
+                if outer == 'unknown':
+                    # the outermost level is an unknown field validated by the rules for unknown fields
+                    kw['allow_unknown'] = schema['n']
+                    schema = {'top': {}}
+                    doc = {'u': doc['n']}
+                else:
+                    schema['top'] = {}
+                for present in (True, False):
+                    d2 = copy.deepcopy(doc)
+                    if present:
+                        d2['top'] = 1
+                    try:
+                        ok = Validator(copy.deepcopy(schema), **copy.deepcopy(kw)).validate(d2)
+                    except Exception as e:
+                        ok = 'raised %s' % type(e).__name__
+                    ctx.dist('root_checks', outer)
+                    if ok != present:
+                        ctx.fail('C10 oracle: root-relative dependency below %s (%s at the root) resolved wrongly '
+                                 '(field present at the root=%s, valid=%s)' % ('/'.join(seq), outer, present, ok),
+                                 {'schema': repr(schema), 'doc': repr(d2), 'kw': repr(kw)})
+                        return
 
 
 def run(ctx, n):
